@@ -73,23 +73,30 @@ def run(chk):
                 key = "%s n=%d%s" % (label, n, tag)
                 try:
                     it, outs, ops = call_with_tables(env, kind, b, n, ["a", "b"])
-                    o, v, d = single_return(outs)
-                    if o is not None:
-                        exp = S.bnot(n) if op == "not" else S.binop(n, op)
+                    live, v, d = all_returns(outs)
+                    exp = S.bnot(n) if op == "not" else S.binop(n, op)
+                    verdicts = []
+                    for o in (live or []):
                         if inplace:
                             if ops[0]["ptr"] is None:
-                                v, d = UNDECIDED, "in-place form without a receiver reference"
+                                v1, d1 = UNDECIDED, "in-place form without a receiver reference"
                             else:
-                                v, d = check_table_value(env, kind, it, o.state, it.read_ptr(o.state, ops[0]["ptr"]), n, exp, o.pc)
+                                v1, d1 = check_table_value(env, kind, it, o.state, it.read_ptr(o.state, ops[0]["ptr"]), n, exp, o.pc)
                         else:
-                            v, d = check_table_value(env, kind, it, o.state, o.value, n, exp, o.pc)
+                            v1, d1 = check_table_value(env, kind, it, o.state, o.value, n, exp, o.pc)
                         # borrowed operands unchanged
                         for k, opd in enumerate(ops):
-                            if v != PROVED:
+                            if v1 != PROVED:
                                 break
                             if opd["ptr"] is not None and not (inplace and k == 0):
-                                v, d = check_table_value(env, kind, it, o.state, it.read_ptr(o.state, opd["ptr"]), n, S.identity(n, opd["name"]), o.pc)
-                                d = d and "borrowed operand %s modified: %s" % (opd["name"], d)
+                                v1, d1 = check_table_value(env, kind, it, o.state, it.read_ptr(o.state, opd["ptr"]), n, S.identity(n, opd["name"]), o.pc)
+                                d1 = d1 and "borrowed operand %s modified: %s" % (opd["name"], d1)
+                        verdicts.append((v1, d1))
+                    for want in (REFUTED, UNDECIDED):
+                        hit = [x for x in verdicts if x[0] == want]
+                        if hit:
+                            v, d = hit[0]
+                            break
                 except Undecided as e:
                     v, d = UNDECIDED, e.cause
                 chk.add("C01.K", key, v, d, where=where_of(b),
